@@ -51,6 +51,7 @@ SAN_ENV = {
 DEFAULT = {"variant": "asan", "adapters": True, "quick": {"shards": 8, "n": 1500, "scale": 20, "arg": 0},
            "thorough": {"shards": 16, "n": 12000, "scale": 30, "arg": 0}, "fuzz_s": 0}
 CONFIG = {
+    "C09": {"quick": {"shards": 8, "n": 1500, "scale": 30, "arg": 8}, "thorough": {"shards": 16, "n": 10000, "scale": 50, "arg": 16}},
     "C16": {"quick": {"shards": 8, "n": 1500, "scale": 24, "arg": 8}, "thorough": {"shards": 16, "n": 10000, "scale": 40, "arg": 16}},
     "C15": {"quick": {"shards": 8, "n": 2500, "scale": 24, "arg": 12}, "thorough": {"shards": 16, "n": 15000, "scale": 40, "arg": 24}},
     "C10": {"variants": ["asan", "tsan"],
